@@ -267,6 +267,23 @@ theorem dekker_product_utils (q : QFmt) (r : ℚ → ℚ) (hr : IsRN q r) (f : F
   ⟨EFT.mulDekkerU_prog hr f cb hC h2s h2s2 hs2 hkx1 hkx2 hky1 hky2 hex hey he x y hx hy,
    fun h => EFT.squareDekkerU_prog hr f cb hC h2s h2s2 hs2 hkx1 hkx2 hex h x hx⟩
 
+/-- `fpa.mul_dekker(scale=False, fix_overflow=True)`: when the product of the high halves does not exceed
+the largest finite value `Lm` (no overflow), the two `select`s keep Dekker's exact pair. -/
+theorem dekker_product_fix_overflow (q : QFmt) (r : ℚ → ℚ) (hr : IsRN q r) (f : Fmt) (cb lb zb : Nat) (s : ℕ) (Lm : ℚ)
+    (hC : (decode f cb).toRat? = some (2 ^ s + 1)) (hL : (decode f lb).toRat? = some Lm) (hZ : (decode f zb).toRat? = some 0)
+    (h2s : q.p ≤ 2 * s) (h2s2 : 2 * s ≤ q.p + 2) (hs2 : s + 2 ≤ q.p)
+    (kx ky ex ey : ℤ) (hkx1 : 2 ^ (q.p - 1) ≤ |kx|) (hkx2 : |kx| < 2 ^ q.p) (hky1 : 2 ^ (q.p - 1) ≤ |ky|) (hky2 : |ky| < 2 ^ q.p)
+    (hex : q.emin ≤ ex) (hey : q.emin ≤ ey) (he : q.emin ≤ ex + ey) (x y : ℚ) (hx : x = (kx : ℚ) * 2 ^ ex) (hy : y = (ky : ℚ) * 2 ^ ey)
+    (hno : |r (r (r ((2 ^ s + 1) * y) - r (r ((2 ^ s + 1) * y) - y)) * r (r ((2 ^ s + 1) * x) - r (r ((2 ^ s + 1) * x) - x)))| ≤ Lm) :
+    evalQ f r (mulDekkerFix cb lb zb) mulDekkerFixOuts [x, y] = some [r (x * y), x * y - r (x * y)] :=
+  EFT.mulDekkerFix_prog hr f cb lb zb Lm hC hL hZ h2s h2s2 hs2 hkx1 hkx2 hky1 hky2 hex hey he x y hx hy hno
+
+/-- tie: the regenerated `mul_dekker(scale=False, fix_overflow=True)` programs are the specification program
+with the format's splitting constant, largest finite value and +0 -/
+theorem ties_dekker_fix :
+    ∀ e ∈ [(mul_dekker_fix_f16, 21520), (mul_dekker_fix_f32, 1166018560), (mul_dekker_fix_f64, 4728779608772575232)],
+      e.1.nodes = mulDekkerFix e.2 e.1.fmt.maxBits 0 ∧ e.1.outs = mulDekkerFixOuts := by decide
+
 /-- the splitting constants of the three formats, as bit patterns, and their values 2^⌈p/2⌉ + 1 -/
 theorem split_constants :
     (decode binary16 21520).toRat? = some (2 ^ 6 + 1) ∧ (decode binary32 1166018560).toRat? = some (2 ^ 12 + 1) ∧
